@@ -77,11 +77,11 @@ def r1_selection_atoms(ctx):
                                       any_of=[["Eq(%s($2.outputs, 0).denom, PoolKey::left(KEY))" % IDX, "Eq(%s($2.outputs, 0).denom, PoolKey::right(KEY))" % IDX]]),
         "get_deposit_transactions": dict(kind="LiqDeposit", atoms=["Eq($2.kind, TxKind::LiqDeposit{})", "Le(2, Vec::len($2.outputs))",
                                                                     "Eq(%s($2.outputs, 0).denom, PoolKey::left(KEY))" % IDX, "Eq(%s($2.outputs, 1).denom, PoolKey::right(KEY))" % IDX],
-                                         calls=[("unspent0", "Option::is_some(CoinMapping::get_coin(^state.coins, Transaction::output_coinid($2, 0)))", 0),
-                                                ("unspent1", "Option::is_some(CoinMapping::get_coin(^state.coins, Transaction::output_coinid($2, 1)))", 0), ("key", "KEYCALL", V(0))], any_of=[]),
+                                         calls=[("unspent0", "CoinMapping::get_coin(^state.coins, Transaction::output_coinid($2, 0))", V(0)),
+                                                ("unspent1", "CoinMapping::get_coin(^state.coins, Transaction::output_coinid($2, 1))", V(0)), ("key", "KEYCALL", V(0))], any_of=[]),
         "get_withdrawal_transactions": dict(kind="LiqWithdraw", atoms=["Eq($2.kind, TxKind::LiqWithdraw{})", "Eq(1, Vec::len($2.outputs))",
                                                                        "Eq(%s($2.outputs, 0).denom, PoolKey::liq_token_denom(KEY))" % IDX],
-                                            calls=[("unspent0", "Option::is_some(CoinMapping::get_coin(^state.coins, Transaction::output_coinid($2, 0)))", 0),
+                                            calls=[("unspent0", "CoinMapping::get_coin(^state.coins, Transaction::output_coinid($2, 0))", V(0)),
                                                    ("key", "KEYCALL", V(0)), ("pool-exists", "SmtMapping::get(^state.pools, KEY)", V(0))], any_of=[]),
     }
     for name, sp in spec.items():
@@ -109,6 +109,9 @@ def r1_selection_atoms(ctx):
             ok = _selected_unreachable(c, somes, finals, {e: 0 for e in atoms[a2]})
             r.check(ok, "%s/necessary:%s" % (name, a), "%s false ⇒ not selected" % a, "with %s false the transaction is still selected" % a, where)
         for label, cs, val in sp["calls"]:
+            if cs not in calls and cs.startswith("Option::is_some(") and val in (0, 1) and "Option::is_none(" + cs[len("Option::is_some("):] in calls:
+                # `if x.is_none() { return None }` is the test `x.is_some()` spelled from the other side
+                cs, val = "Option::is_none(" + cs[len("Option::is_some("):], 1 - val
             if cs not in calls:
                 r.violation("%s/missing:%s" % (name, label), "%s never evaluates %s" % (name, cs), where)
                 continue
@@ -334,15 +337,27 @@ def r3_deposits(ctx):
     my = "core::num::<impl u128>::saturating_mul(%s(%s($2.outputs, 0).value.0), %s(%s($2.outputs, 1).value.0))" % (SQ, IDX, SQ, IDX)
     if len(vals) == 1:
         got = sig(q.novers(vals[0]))
-        ok = got in ("melmint::multiply_frac(^total_liqs, Ratio::new(%s, ^total_mtsqrt))" % my, "melmint::pro_rata(^total_liqs, %s, ^total_mtsqrt)" % my)
+        # read through the captures: what is handed out, the request's weight and the batch total are identified by their role in the share, not by the
+        # names of the variables that carry them into the closure (a struct bundling amount and total reads the same)
+        cm = dict(caps)
+        cm.update({k.replace("_ref__", ""): v for k, v in list(cm.items())})
+        ge = q.unwrap0(q.subst_simplify(q.novers(vals[0]), {}, cm))          # `CoinValue(x)` / `x.into()`: the wrapper of the integer newtype is spelling
+        A = W = T = None
+        if q.is_call(ge, "melmint::pro_rata") and len(ge[2]) == 3:
+            A, W, T = ge[2]
+        elif q.is_call(ge, "melmint::multiply_frac") and len(ge[2]) == 2 and q.is_call(ge[2][1], "Ratio::new") and len(ge[2][1][2]) == 2:
+            A, (W, T) = ge[2][0], ge[2][1][2]
+        ok = A is not None and sig(q.novers(W)) == my
         r.check(ok, "rewrite/value", "liquidity = multiply_frac(total_liqs, own_mtsqrt/total_mtsqrt)", "liquidity value = %s" % got[:300])
-        tqe = mir.strip(caps.get("_ref__total_liqs", ("unknown", "")))
+        if A is None:
+            A, T = caps.get("_ref__total_liqs", ("unknown", "")), caps.get("_ref__total_mtsqrt", ("unknown", ""))
+        tqe = mir.strip(A)
         alts = list(tqe[1]) if tqe[0] == "phi" else [tqe]
         tq = sig(q.novers(tqe))
         r.check(all(q.is_call(mir.strip(a), "PoolState::deposit") for a in alts), "rewrite/total_liqs", "total_liqs = result of PoolState::deposit (every branch)", "total_liqs = %s" % tq[:260])
         # "pro rata": the shares Σ floor(total_liqs·wᵢ/W) add up to at most total_liqs only if W = Σ wᵢ — the denominator must be the sum, over the same
         # batch, of the very expression used as the numerator (a denominator computed another way, e.g. √Σl·√Σr, can be smaller than Σ √lᵢ·√rᵢ)
-        tme = mir.strip(caps.get("_ref__total_mtsqrt", ("unknown", "")))
+        tme = mir.strip(T)
         term = q.sum_over(ctx.prog, b, tme)
         okd = term is not None and term == my.replace("$2", "@")
         why = "denominator = %s" % sig(q.novers(tme))[:160] if term is None else "denominator sums %s, the numerator is %s" % (term[:120], my[:120])
